@@ -40,7 +40,7 @@ theorem step_wt {s s' : St} (h : Step s s') (hinv : ∀ c, WT (s.chans c)) : ∀
   | nodeBreak _ _ => exact hinv c'
   | nodeToWait _ _ => exact hinv c'
   | nodeFinish _ _ _ => exact hinv c'
-  | nodeCloseChan c h1 h2 => (onchanW c; wtstep)
+  | nodeCloseChan c h1 h2 h3 => (onchanW c; wtstep)
   | newChan c h1 h2 h3 h4 => (onchanW c; wtstep)
   | newChanTerm c h1 h2 h3 h4 h5 h6 h7 => (onchanW c; wtstep)
   | pBegin c ev h1 h2 h3 => (onchanW c; wtstep)
@@ -106,7 +106,7 @@ theorem step_frame {s s' : St} (h : Step s s') :
   | nodeBreak _ _ => right; intro c; exact ⟨rfl, rfl⟩
   | nodeToWait _ _ => right; intro c; exact ⟨rfl, rfl⟩
   | nodeFinish _ _ _ => right; intro c; exact ⟨rfl, rfl⟩
-  | nodeCloseChan c h1 h2 => sf c
+  | nodeCloseChan c h1 h2 h3 => sf c
   | newChan c h1 h2 h3 h4 => sfd c
   | newChanTerm c h1 h2 h3 h4 h5 h6 h7 => sf c
   | pBegin c ev h1 h2 h3 => sf c
